@@ -313,6 +313,61 @@ func runCase(r *harness.Run, c c06Case) error {
 	if len(errs) != 1 || (errs[0] == nil) != want {
 		return fmt.Errorf("VerifyAllEventSignatures disagrees: %v", errs)
 	}
+	// the batch entry point with two events that share an event ID but not their signatures (the ID does not cover the
+	// signatures): this event and a twin on which every signature is genuine, in both orders. Each gets its own verdict.
+	sigFault, anyFetcher := false, false
+	twinWant := true
+	for _, s := range servers {
+		switch st := c.States[s]; {
+		case st == "absent" || st == "corrupted" || st == "other-key":
+			sigFault = true
+		case fetcherState(st):
+			anyFetcher = true
+		}
+	}
+	for _, s := range required {
+		switch c.States[s] {
+		case "key-absent":
+			twinWant = false
+		default: // the twin's signature is genuine: what remains is the key's validity at ts (the clock may stand anywhere)
+			res := d.keys[gmsl.PublicKeyLookupRequest{ServerName: spec.ServerName(s), KeyID: "ed25519:1"}]
+			if !validAt(T, int64(res.ValidUntilTS), int64(res.ExpiredTS), now, row.StrictKeyValidity) {
+				twinWant = false
+			}
+		}
+	}
+	if sigFault && !anyFetcher {
+		allSigs := map[string]map[string][]byte{}
+		for _, s := range servers {
+			allSigs[s] = map[string][]byte{good[s].KeyID: evgen.EventSignature(c.Version, v, good[s])}
+		}
+		twin, terr := ver.NewEventFromTrustedJSON(evgen.WithSignatures(text, allSigs), false)
+		if terr != nil {
+			return fmt.Errorf("harness: trusted parse of the twin: %v", terr)
+		}
+		if twin.EventID() != pdu.EventID() {
+			return fmt.Errorf("harness: twin has another event ID")
+		}
+		for _, order := range [][]gmsl.PDU{{twin, pdu}, {pdu, twin}} {
+			wants := []bool{twinWant, want}
+			if order[0] == pdu {
+				wants = []bool{want, twinWant}
+			}
+			var be []error
+			if p, msg := harness.Try(func() { be = gmsl.VerifyAllEventSignatures(context.Background(), order, ring, uid) }); p {
+				return fmt.Errorf("VerifyAllEventSignatures panics: %s", msg)
+			}
+			if len(be) != 2 {
+				return fmt.Errorf("VerifyAllEventSignatures: %d results for 2 events", len(be))
+			}
+			for i := range be {
+				if (be[i] == nil) != wants[i] {
+					return fmt.Errorf("version %s, %s, states %v: batch of the event and a genuinely signed twin with the same event ID (this event at index %d): result %d is %v, expected accept=%v", c.Version, c.Shape, c.States, map[bool]int{true: 0, false: 1}[order[0] == pdu], i, be[i], wants[i])
+				}
+			}
+		}
+		r.Count("twin_batches", 2)
+	}
 	if bad <= 1 {
 		r.Nontrivial(fmt.Sprintf("%s|%s|%v|%v", c.Version, c.Shape, c.States, want))
 	}
@@ -328,7 +383,7 @@ func main() { harness.Main("C06", "fault_enumeration", run) }
 
 func run(r *harness.Run) {
 	verifhook.Clock = func() time.Time { return vnow }
-	r.Rule("13 event shapes (message; member join/knock/leave/kick/ban/invite to another and to the same server; invite carrying third_party_invite; join and invite carrying join_authorised_via_users_server; other state; v1/v2 event ID naming another server) x 15 room versions x per-server state in {valid, absent, corrupted, made by another key under the same key ID, key unknown, expired at / after ts, valid_until before / at ts, valid_until beyond / within the 7-day cap; with a key fetcher behind the database: key only at the fetcher, database record past its validity refreshed as retired-before-ts / as current}: every single server (5, incl. an unrelated one) in every state, and every pair of servers in every pair of states; real KeyRing over a scripted database, virtual clock placed so that the cap boundary is exact. Oracle: accept <=> every server in the reference required set has a valid-at-ts signature under the version's rule. Pseudo-ID version (own sub-harness): message / leave / invite / join x sender-key signature state x invited-key signature state x 11 mxid_mapping states (valid, missing, unsigned, signed only by another server, corrupted, wrong key, key unknown / expired / past validity, valid plus a bad or unknown other-server signature) x an unrelated server signature on the event; accept <=> the sender key (and for invites the invited key) signed the event and, for joins, the mapping carries a valid-at-ts signature of the mapped user's server. Non-trivial = distinct case with at most one failing required signer.")
+	r.Rule("13 event shapes (message; member join/knock/leave/kick/ban/invite to another and to the same server; invite carrying third_party_invite; join and invite carrying join_authorised_via_users_server; other state; v1/v2 event ID naming another server) x 15 room versions x per-server state in {valid, absent, corrupted, made by another key under the same key ID, key unknown, expired at / after ts, valid_until before / at ts, valid_until beyond / within the 7-day cap; with a key fetcher behind the database: key only at the fetcher, database record past its validity refreshed as retired-before-ts / as current}: every single server (5, incl. an unrelated one) in every state, and every pair of servers in every pair of states; real KeyRing over a scripted database, virtual clock placed so that the cap boundary is exact. Oracle: accept <=> every server in the reference required set has a valid-at-ts signature under the version's rule; the batch entry point additionally with the event and a genuinely signed twin of the same event ID, in both orders (each its own verdict). Pseudo-ID version (own sub-harness): message / leave / invite / join x sender-key signature state x invited-key signature state x 11 mxid_mapping states (valid, missing, unsigned, signed only by another server, corrupted, wrong key, key unknown / expired / past validity, valid plus a bad or unknown other-server signature) x an unrelated server signature on the event; accept <=> the sender key (and for invites the invited key) signed the event and, for joins, the mapping carries a valid-at-ts signature of the mapped user's server. Non-trivial = distinct case with at most one failing required signer.")
 	r.Assume("ed25519 trusted; reference signatures are made over the reference redaction (agreement with the library's redaction is C05)", "for org.matrix.msc4014 (pseudo IDs) the \"sender's server\" of a join is the server of the user the mxid_mapping names")
 	r.OnReplay("case", func(raw json.RawMessage) error {
 		var c c06Case
